@@ -247,6 +247,10 @@ class ProbabilisticNode(Node):
         if len(alive) == len(self.next_states):
             return
         alive_probability = sum(_next_state[PROBABILITY] for _next_state in alive)
+        if alive_probability == 0:
+            # every surviving transition has probability 0: nothing to redistribute
+            self.next_states = alive
+            return
         self.next_states = [
             (_next_state[PROBABILITY] / alive_probability, _next_state[NEXT_STATE_IDX])
             for _next_state in alive]
